@@ -157,6 +157,82 @@ def run(ctx):
                         ok = True
             R.ob(ok, "SIBLING", "src/server/rpc_server.rs", "SIBLING|%s|select_bytes" % name, "%s does not obtain its bytes from select_bytes" % name,
                  sample={"rule": "SIBLING", "handler": name, "bytes": "select_bytes(raw, base64)"})
+    # LIMIT-DOMAIN: the call-data limit bounds *decoded bytes*.  Every guard anywhere in the crate that compares a length
+    # directly with CALLDATA_LIMIT measures a byte buffer (base64-decoded data, a frame size, a decompressed length), never
+    # the length of the encoded text: base64 text is a third longer than what it carries, so a text-length test refuses
+    # payloads that are within the limit (and only through the base64 field: the two encodings stop agreeing).
+    n_lim = 0
+    limit_value = None
+    for c in F.j["consts"]:
+        if c["name"].endswith("CALLDATA_LIMIT") and isinstance(c.get("v"), int):
+            limit_value = c["v"]
+    R.ob(limit_value is not None, "ANCHOR", "(whole crate)", "ANCHOR|CALLDATA_LIMIT", "constant CALLDATA_LIMIT not found")
+
+    def const_eval(t):
+        """value of a term built from integer constants only, else None"""
+        if t[0] == "const" and isinstance(t[1], int):
+            return t[1]
+        if t[0] == "cast":
+            return const_eval(t[1])
+        if t[0] == "field" and t[2] == ".0":
+            return const_eval(t[1])
+        if t[0] == "bin":
+            a, b2 = const_eval(t[2]), const_eval(t[3])
+            if a is None or b2 is None:
+                return None
+            op = t[1]
+            if op.startswith("Add"):
+                return a + b2
+            if op.startswith("Sub"):
+                return a - b2
+            if op.startswith("Mul"):
+                return a * b2
+            if op.startswith("Div") and b2:
+                return a // b2
+            if op.startswith("Shl"):
+                return a << b2
+            if op.startswith("Shr"):
+                return a >> b2
+        return None
+
+    def is_text_len(t):
+        return t[0] == "call" and (t[1].endswith("String::len") or t[1].endswith("str>::len") or t[1].endswith("str::len"))
+
+    sbx = [f for f in F.fns.values() if f.name.endswith("api::types::select_bytes")]
+    b64_path = CG.reachable_from([x.id for x in sbx]) if sbx else set()
+    for f in F.body_fns():
+        if "::tests::" in f.name:
+            continue
+        for (b, sx, fm, line) in edge_forms(f):
+            has_limit = any(c.endswith("CALLDATA_LIMIT") for c in fm.lin.consts) or any(mentions(t, "CALLDATA_LIMIT") for t in fm.lin.terms)
+            on_path = f.id in b64_path and "api::types" in f.name
+            if not (has_limit or on_path):
+                continue
+            if has_limit:
+                n_lim += 1
+            text = [(t, c) for t, c in fm.lin.terms.items() if is_text_len(t) and abs(c) == 1]
+            if not text or limit_value is None:
+                continue
+            rest = 0
+            evaluable = True
+            for t, c in fm.lin.terms.items():
+                if is_text_len(t):
+                    continue
+                v = const_eval(t)
+                if v is None:
+                    evaluable = False
+                    break
+                rest += c * v
+            if not evaluable:
+                continue
+            split = abs(rest + fm.lin.k)
+            need = ((limit_value + 1) * 4 + 2) // 3
+            R.ob(split >= need - 1, "LIMIT", "%s:%s" % (f.loc["f"], line), "LIMIT|domain|%s" % f.name,
+                 "%s tests the length of encoded *text* (`%s`) against %d, but CALLDATA_LIMIT bounds decoded bytes: base64 text of a payload "
+                 "within the limit is up to %d characters long, so such payloads are refused when they arrive base64-encoded (and accepted "
+                 "through the hex field)" % (f.name, show(text[0][0])[:60], split, need),
+                 sample={"rule": "LIMIT domain", "fn": f.name[-50:], "text_length_split_at": split, "needed_at_least": need})
+    R.floor("guards_against_the_calldata_limit", n_lim, 6)
     # PANIC on the decode path
     dbname = roles.database_struct(F)["name"]
     ledger = {r["key"]: r for r in ctx.table("panic_ledger.json")["rows"]}
